@@ -145,6 +145,8 @@ def run_property(prop: str, tier: str, runfn, explanation: str, root: str,
                     for r in misses[:3]))
     except AnalysisError as exc:
         err = f"{exc}"
+        if os.environ.get("PTSTAT_DEBUG"):
+            traceback.print_exc()
         status = 2
     except Exception as exc:  # a bug in the checker is not a violation
         err = f"internal error: {exc.__class__.__name__}: {exc}"
